@@ -183,7 +183,7 @@ def run(ctx):
         fam = w["name"].split("-")[1]
         wl.append((w, fam, rng.sample(ml, 2 if quick else 5)))
 
-    cases, meta, skipped = [], [], 0
+    cases, meta, nrots, skipped = [], [], [], 0
     for w, fam, meshes in wl:
         okey = "lat=%s" % fam
         try:
@@ -231,6 +231,7 @@ def run(ctx):
             continue
         cases.append({"w": {k: ow[k] for k in ("dim", "M", "D", "basis")}, "sq": sq, "B": B, "meshes": ms})
         meta.append((w, okey, good, facts))
+        nrots.append(len({tuple(int(x) for x in np.asarray(g.rot).flatten()) for g in crys.G}))
 
     # big cases first inside each shard does not matter; shard round-robin balances them
     fails, infos, results = tlc.run_cases("Check_C22", cases, shards=8 if quick else 14,
@@ -252,12 +253,22 @@ def run(ctx):
             ctx.traces += 1
             if j in byc:
                 mesh = cases[i]["meshes"][j]
-                ctx.violation("clause|%s|%s|mesh=%s" % ("+".join(sorted(byc[j])), okey, "x".join(map(str, N))),
-                              "world %s (observed metric %s, point group order %s), mesh %s: clause(s) %s of Check_C22 "
-                              "fail; %d full points, %d reduced points, counts %s" % (
-                                  w["name"], cases[i]["w"]["M"], infos.get(i, {}).get("pointgroup"), list(N),
-                                  sorted(byc[j]), len(mesh["full"]), len(mesh["red"]), mesh["cnt"][:12]),
-                              {"world": w, "observed": cases[i]["w"], "mesh": mesh})
+                npg = infos.get(i, {}).get("pointgroup")
+                # the clauses about the mesh itself and those about its reduction are reported separately; the latter
+                # carry a tag telling whether the crystal's own operation list has the definitional point group's size
+                gtag = "G=def" if nrots[i] == npg else "G=impl%s/def%s" % (nrots[i], npg)
+                parts = [("mesh", [c for c in byc[j] if c.startswith("full_mesh")], ""),
+                         ("reduction", [c for c in byc[j] if not c.startswith("full_mesh")], gtag + "|")]
+                for kind, names, tag in parts:
+                    if not names:
+                        continue
+                    ctx.violation("%s|%s%s|%s|mesh=%s" % (kind, tag, "+".join(sorted(names)), okey, "x".join(map(str, N))),
+                                  "world %s (observed metric %s; definitional point group order %s, crystal reports %s "
+                                  "distinct rotations), mesh %s: clause(s) %s of Check_C22 fail; %d full points, %d reduced "
+                                  "points, weight*Nkpt = %s" % (
+                                      w["name"], cases[i]["w"]["M"], npg, nrots[i], list(N), sorted(names),
+                                      len(mesh["full"]), len(mesh["red"]), mesh["cnt"][:16]),
+                                  {"world": w, "observed": cases[i]["w"], "mesh": mesh})
     ctx.info("meshes_with_folded_points", nfolded)
     ctx.info("meshes_skipped_for_integer_range", skipped)
     if cases:
